@@ -10,6 +10,7 @@ and fully linear in it (`cylinder_linear_in_polarization`: the polar form `pol_x
 arctan2(pol_y, pol_x)`, kernel at `phi − tetta` is resolved with the kernel's cos/sin dependence on the
 azimuth and the addition theorems), whenever the evaluations involved return a value.
 -/
+import MagpyVerif.Lemmas.KernCylSeg
 import MagpyVerif.Lemmas.Level2Shape
 import MagpyVerif.Lemmas.KernAlgebra
 import MagpyVerif.Lemmas.KernCylinder
@@ -262,5 +263,34 @@ example :
   refine ⟨?_, ?_, ?_⟩ <;>
     simp [bhjmCylinder, bhjmCylinderRow, cylMasks, isclose, n, vd, vs]
 end kernels
+
+end MagpyVerif.C05
+
+/-! ### CylinderSegment -/
+namespace MagpyVerif.C05
+open MagpyVerif MagpyVerif.Kern MagpyVerif.Kern.CylSeg
+
+/-- C05 (CylinderSegment), magnitude part of linearity: multiplying the polarization vector by a positive
+factor `c` multiplies all four outputs of the ported `BHJM_cylinder_segment` by `c`, at every observer.
+The code converts the polarization to (|p|/μ₀, arctan2(p_y, p_x), arctan2(√(p_x²+p_y²), p_z)); the two angles — hence
+every case id, every argument of the case functions and of the special functions — do not change, the amplitude
+enters only through the final factor `M · 1e-7 / MU0`.  A NaN row (`none`) stays a NaN row.
+/- FULL: `bhjmCylSeg f x … (a·p1 + b·p2) = a·bhjmCylSeg f x … p1 + b·bhjmCylSeg f x … p2` for arbitrary vectors and
+real a, b.  Not shown: it needs the case functions to depend on (theta_M, phi_M) through
+sin θ cos φ, sin θ sin φ, cos θ linearly — 129 expressions; left to the superposition oracle. -/ -/
+theorem cylseg_linear_in_magnetization_partial (μ : ℝ) (S : SegSpecial) (c : ℝ) (hc : 0 < c) (f : Field)
+    (x : V3 ℝ) (r1 r2 h p1 p2 : ℝ) (pol : V3 ℝ) :
+    @bhjmCylSeg ℝ (realNumX μ S) f x r1 r2 h p1 p2 (@vs ℝ (realNum μ) c pol) =
+      (@bhjmCylSeg ℝ (realNumX μ S) f x r1 r2 h p1 p2 pol).map (@vs ℝ (realNum μ) c) :=
+  bhjmCylSeg_smul μ S c hc f x r1 r2 h p1 p2 pol
+
+/-- the core `magnet_cylinder_segment_Hfield` is proportional to the magnetization amplitude (any real factor) -/
+theorem cylseg_core_linear_in_amplitude (μ : ℝ) (S : SegSpecial) (c r phi z r1 r2 p1 p2 z1 z2 mag phiM thM : ℝ) :
+    @segH ℝ (realNumX μ S) r phi z r1 r2 p1 p2 z1 z2 (c * mag) phiM thM =
+      (@segH ℝ (realNumX μ S) r phi z r1 r2 p1 p2 z1 z2 mag phiM thM).map (@vs ℝ (realNum μ) c) :=
+  segH_smul μ S c r phi z r1 r2 p1 p2 z1 z2 mag phiM thM
+
+-- non-vacuity: a positive factor exists
+example : (0 : ℝ) < 5 := by norm_num
 
 end MagpyVerif.C05
